@@ -20,11 +20,11 @@ GEN = {
                                Ops='{"create_stream","create_topic","update_topic","delete_topic","purge_topic","create_partitions","delete_partitions","send","delete_stream","purge_stream","restart"}'),
                    depth=3, gen=(1, 2), transports=['tcp', 'http']),
     'groups': dict(consts=dict(BASE, GIds='{0,2}', GNames='{"ga","gb"}', Clients='{1,2}',
-                               Ops='{"create_stream","create_topic","create_group","delete_group","join","leave","disconnect","delete_topic","delete_stream","restart"}'),
+                               Ops='{"create_stream","create_topic","create_group","delete_group","join","leave","disconnect","expire","delete_topic","delete_stream","restart"}'),
                    depth=4, gen=(1, 2), transports=['tcp']),
     # from a populated catalogue (two topics with same-named groups, a client member of both): every command, depth 2
     'seeded': dict(consts=dict(BASE, TIds='{0}', TNames='{"ta","tb"}', GNames='{"ga"}', Clients='{1,2}', Seeded='TRUE',
-                               Ops='{"delete_topic","delete_group","leave","disconnect","delete_stream","purge_topic","delete_partitions","create_partitions","send","restart","update_topic","join"}'),
+                               Ops='{"delete_topic","delete_group","leave","disconnect","expire","delete_stream","purge_topic","delete_partitions","create_partitions","send","restart","update_topic","join"}'),
                    depth=2, gen=(1, 2), transports=['tcp']),
     'users': dict(consts=dict(BASE, UNames='{"alice","bobby"}', Ops='{"create_user","update_user","delete_user","restart"}'),
                   depth=3, gen=(2, 3), transports=['tcp', 'http']),
@@ -182,7 +182,7 @@ def nontrivial(prop, scn, evs):
     if prop == 'C13':
         return scn['cfg'].get('transport') == 'http' or len(ops) >= 4
     if prop == 'C08':
-        return any(o in ops for o in ('join',)) and any(o in ops for o in ('disconnect', 'leave', 'delete_topic', 'delete_stream', 'delete_group'))
+        return any(o in ops for o in ('join',)) and any(o in ops for o in ('disconnect', 'expire', 'leave', 'delete_topic', 'delete_stream', 'delete_group'))
     if prop == 'C19':
         return 'restart' in ops and any(o.startswith('create_') for o in ops)
     if prop == 'C05':
